@@ -35,6 +35,13 @@ type VictimOp struct {
 	On      bool   `json:"on,omitempty"`
 	Preload bool   `json:"preload,omitempty"`
 	Mode    string `json:"mode,omitempty"` // replica mode to set after open (RW/WO)
+	// Then is a follow-up the victim performs on the same replica object after
+	// the operation under test has returned (whatever it returned): "" | close |
+	// touchmeta (SetRebuilding(false): rewrites volume.meta without changing
+	// anything the model tracks) | touchclose. An injected fault is transient (one
+	// call fails once), so the follow-up runs on a healthy file system: state that
+	// a failed operation left behind in memory must not reach the disk through it.
+	Then string `json:"then,omitempty"`
 }
 
 const (
@@ -83,6 +90,20 @@ func victimMain() int {
 	syscall.Access(markBegin, 0)
 	err := victimDo(s, dir, op)
 	syscall.Access(markEnd, 0)
+	if op.Then != "" {
+		var terr error
+		if strings.HasPrefix(op.Then, "touch") && s.Replica() != nil {
+			terr = s.SetRebuilding(false)
+		}
+		if strings.HasSuffix(op.Then, "close") && terr == nil {
+			terr = s.Close()
+		}
+		if terr != nil {
+			fmt.Println("THEN error:", terr)
+		} else {
+			fmt.Println("THEN ok")
+		}
+	}
 	if err != nil {
 		fmt.Println("RESULT error:", err)
 		return 0
@@ -157,6 +178,7 @@ var lineRe = regexp.MustCompile(`^(\d+)\s+(\w+)\((.*)\)\s+=\s+(.*)$`)
 
 type VictimRun struct {
 	Result string // "ok", "error: ...", "" (died)
+	Then   string // result of the follow-up ("" = none / died before)
 	Died   bool
 	Calls  []SysCall // main-thread calls between the markers
 	Raw    string
@@ -193,13 +215,16 @@ func runVictim(dir string, op VictimOp, maxChain int, inject string) (*VictimRun
 	if err := cmd.Start(); err != nil {
 		return nil, err
 	}
-	res := ""
+	res, then := "", ""
 	done := make(chan struct{})
 	go func() {
 		sc := bufio.NewScanner(out)
 		for sc.Scan() {
 			if strings.HasPrefix(sc.Text(), "RESULT ") {
 				res = strings.TrimPrefix(sc.Text(), "RESULT ")
+			}
+			if strings.HasPrefix(sc.Text(), "THEN ") {
+				then = strings.TrimPrefix(sc.Text(), "THEN ")
 			}
 		}
 		close(done)
@@ -214,7 +239,7 @@ func runVictim(dir string, op VictimOp, maxChain int, inject string) (*VictimRun
 		return nil, fmt.Errorf("victim timed out")
 	}
 	<-done
-	vr := &VictimRun{Result: res, Died: res == ""}
+	vr := &VictimRun{Result: res, Then: then, Died: res == ""}
 	raw, _ := os.ReadFile(tf.Name())
 	vr.Raw = string(raw)
 	if strings.HasPrefix(res, "harness-error") {
